@@ -22,7 +22,8 @@ RULE = ("exhaustive matrix: every node kind the parser can produce (11 literal k
         "and mention every field and literal; or (ii) an ODataException; or (iii) Core's documented "
         "NotImplementedError on a filter with a path or lambda. Anything else (None/partial output, placeholder "
         "text, foreign exception, unknown field not reported as InvalidFieldException, two different functions "
-        "translated identically) is a violation. Each (construct, position, backend) cell is a case.")
+        "translated identically) is a violation. Each (construct, position, backend) cell is a case."
+        " Null is also placed as in-subject, as the only element(s) of an in-list (also under not/and), as arithmetic operand and function argument; all-zero and all-part durations; names that exist on an enclosing model but not on the lambda's child model; relational random composites.")
 ASSUMPTIONS = ["GeoDjango's system libraries are absent in this sandbox: Django geo cells raise the documented ImportError and are counted, not asserted",
                "ORM completeness is judged on the compiled SQL text + parameters (sqlite dialect)"]
 
